@@ -12,7 +12,7 @@ rf=""; case "$id" in C14-*) rf="--cfg kodama_verif";; esac
 cd $wt
 git apply $d/patch.diff || { echo "$id: patch does not apply"; exit 2; }
 b=$(cargo build --offline --workspace 2>&1 | tail -1)
-t=$(cargo test --offline --workspace --lib --bins --doc 2>&1 | grep "test result" | head -1)
+t=$(cargo test --offline --workspace --lib 2>&1 | grep "test result" | head -1)
 RUSTFLAGS="$rf" cargo test --offline $flags --test $name >/dev/null 2>&1; with=$?
 git checkout -q -- src kodama-capi kodama-bin go-kodama Cargo.toml 2>/dev/null
 RUSTFLAGS="$rf" cargo test --offline $flags --test $name >/dev/null 2>&1; without=$?
